@@ -22,6 +22,20 @@ CLAIMED = {
         "parsed by Python's sre parser); Python re semantics = Pure/Regex.v on the subset, \\d as ASCII digits; factors "
         "compared as powers of ten within 1e-9; correspondence harness.",
         "DESIGN.md section 5 C09", TECH),
+    "C07": (
+        "Machine-checked Coq theorems over an exact-rational Gallina model of index_of / range_indices / position_at / axis / "
+        "tick_at for the three dimension kinds: for every offset, every positive interval, every position and mode the result "
+        "is THE last sample <= / < or first sample >= the position and None (IndexError) exactly when no such sample exists; "
+        "range_indices covers exactly the samples in the interval; round trips; for every ascending tick vector (repeats, "
+        "single, empty) and every label count. The declarative order specification is short (Proofs/DimsBase.v). The "
+        "theorems exclude, by an explicit boolean hypothesis, positions inside np.isclose's tolerance of a sample (known "
+        "finding, refuted theorem with witness). The executable oracle applied to the implementation's answers is proven "
+        "sound w.r.t. the specification. Tie: seeded correspondence on exact rationals of float inputs against real "
+        "dimension objects of a scratch NIX file.",
+        "Trusted: Coq kernel; numpy semantics (np.round half-even, np.isclose formula, np.floor, np.where order) as modelled; "
+        "IEEE rounding of (position-offset)/interval is not modelled (inputs within 1e-11 of a decision edge are skipped and "
+        "counted); hand-written model tied by correspondence only.",
+        "DESIGN.md section 5 C07", TECH),
 }
 
 PENDING_REASON = ("check not built yet in this revision (work in progress: the property is meant to be decided by Coq "
